@@ -752,6 +752,11 @@ class Inliner:
                     p = parents.get(id(n))
                     if isinstance(p, ast.Attribute) and p.value is n:
                         continue
+                    if isinstance(p, ast.Call) and p.func is n and "__call__" in ci.methods:
+                        # a callable helper object: `v(..)` is `v.__call__(..)`
+                        p.func = ast.copy_location(ast.Attribute(value=n, attr="__call__", ctx=ast.Load()), n)
+                        parents[id(n)] = p.func
+                        continue
                     if isinstance(p, ast.Compare) and len(p.ops) == 1 and isinstance(p.ops[0], (ast.Is, ast.IsNot)) and isinstance(p.comparators[0], ast.Constant) and p.comparators[0].value is None:
                         continue
                     if isinstance(p, ast.Call) and isinstance(p.func, ast.Name) and p.func.id == "__item__" and len(p.args) == 2 and p.args[0] is n \
